@@ -120,14 +120,43 @@ def inIntRange (n : Int) : Bool := MIN_INT < n && n < MAX_INT
 /-- Python `repr(float(k))` of a small integer -/
 def intRepr (k : Int) : String := toString k ++ ".0"
 
+/-- decimal integer text (`-`? digits), as a list of characters -/
+def parseIntChars (cs : List Char) : Option Int :=
+  let digits (ds : List Char) : Option Nat :=
+    if ds.isEmpty || !ds.all Char.isDigit then none else some (ds.foldl (fun acc c => acc * 10 + (c.toNat - 48)) 0)
+  match cs with
+  | '-' :: ds => (digits ds).map fun n => -(n : Int)
+  | ds => (digits ds).map fun n => (n : Int)
+
 /-- `_scalar_node_from_value(Float, x)` for the float with repr `r`: integral values inside the Int range are
     printed as Int literals -/
 def floatLit (r : String) : Lit :=
-  if r.endsWith ".0" && !(r.contains 'e') then
-    match (String.ofList (r.toList.take (r.length - 2))).toInt? with
+  let cs := r.toList
+  if cs.reverse.take 2 == ['0', '.'] && !cs.contains 'e' then
+    match parseIntChars (cs.take (cs.length - 2)) with
     | some k => if inIntRange k then .int (toString k) (intRepr k) else .float r r
     | none => .float r r
   else .float r r
+
+mutual
+/-- structural equality of (canonical JSON) Python values — what `dict` lookup / `==` does on them -/
+def jEq : J → J → Bool
+  | .null, .null => true
+  | .bool a, .bool b => a == b
+  | .num a, .num b => a == b
+  | .str a, .str b => a == b
+  | .arr a, .arr b => jEqList a b
+  | .obj a, .obj b => jEqObj a b
+  | _, _ => false
+def jEqList : List J → List J → Bool
+  | [], [] => true
+  | x :: xs, y :: ys => jEq x y && jEqList xs ys
+  | _, _ => false
+def jEqObj : List (String × J) → List (String × J) → Bool
+  | [], [] => true
+  | (k, x) :: xs, (l, y) :: ys => k == l && jEq x y && jEqObj xs ys
+  | _, _ => false
+end
 
 /-- `ast_node_from_value` at one of the five specified scalars -/
 def builtinLit (n : String) (v : J) : Option Lit :=
@@ -179,7 +208,7 @@ def valueLit (s : SchemaD) : Nat → J → Ty → Option Lit
           | none => none
           | some t =>
             match t.kind with
-            | .enum => (t.values.find? (·.value == v)).map fun ev => .enum ev.name
+            | .enum => (t.values.find? (fun ev => jEq ev.value v)).map fun ev => .enum ev.name
             | .scalar => customLit v
             | .input =>
               match v with
